@@ -42,6 +42,70 @@ pub fn run(name: &str) -> R {
             });
             Ok(format!("create+write returned {:?} (no panic)", r.map_err(|e| e.to_string())))
         }
+        // F6 (C07): removing an entry with two children moves its in-order predecessor into the victim's slot, so a
+        // handle on the predecessor ends up on a freed (later reused) slot
+        "c07_handle_on_predecessor_survives_removal" => {
+            let mut c = CompoundFile::create_with_version(Version::V3, Cursor::new(Vec::new())).unwrap();
+            for n in ["m", "c", "x", "a", "d"] {
+                let mut s = c.create_stream(format!("/{n}")).unwrap();
+                s.write_all(n.as_bytes()).unwrap();
+            }
+            let mut h = c.open_stream("/d").unwrap();
+            c.remove_stream("/m").unwrap();
+            { let mut z = c.create_stream("/zz").unwrap(); z.write_all(b"ZZ").unwrap(); }
+            h.seek(SeekFrom::End(0)).unwrap();
+            h.write_all(b"-via-handle").unwrap();
+            h.flush().unwrap();
+            drop(h);
+            let d = read_all(&mut c, "/d").unwrap();
+            let zz = read_all(&mut c, "/zz").unwrap();
+            if d == b"d-via-handle" && zz == b"ZZ" {
+                Ok("write through the handle on /d landed in /d; /zz untouched".into())
+            } else {
+                Err(format!("/d = {:?}, /zz = {:?}", String::from_utf8_lossy(&d), String::from_utf8_lossy(&zz)))
+            }
+        }
+        // regression net for the removal repair: random create/remove histories against a sorted-set model,
+        // strict reopen after every 16 steps
+        "c01_random_create_remove_vs_model" => {
+            let mut seed: u64 = 0x9E3779B97F4A7C15;
+            let mut next = move || { seed ^= seed << 13; seed ^= seed >> 7; seed ^= seed << 17; seed };
+            for round in 0..40 {
+                let mut c = CompoundFile::create_with_version(if round % 2 == 0 { Version::V3 } else { Version::V4 }, Cursor::new(Vec::new())).unwrap();
+                let mut model: std::collections::BTreeMap<(usize, String), Vec<u8>> = Default::default();
+                for step in 0..200 {
+                    let k = next() % 40;
+                    let name = format!("{}{}", "n".repeat((k % 3) as usize + 1), k);
+                    let key = (name.len(), name.to_uppercase());
+                    if next() % 3 != 0 {
+                        if !model.contains_key(&key) {
+                            let data = vec![(k as u8); (next() % 100) as usize];
+                            let mut s = c.create_stream(format!("/{name}")).unwrap();
+                            s.write_all(&data).unwrap();
+                            drop(s);
+                            model.insert(key, data);
+                        }
+                    } else if model.contains_key(&key) {
+                        c.remove_stream(format!("/{name}")).unwrap();
+                        model.remove(&key);
+                    } else if c.remove_stream(format!("/{name}")).is_ok() {
+                        return Some(Err(format!("removed a missing stream {name}")));
+                    }
+                    let listed: Vec<String> = c.read_root_storage().map(|e| e.name().to_uppercase()).collect();
+                    let want: Vec<String> = model.keys().map(|k| k.1.clone()).collect();
+                    if listed != want { return Some(Err(format!("round {round} step {step}: listing {listed:?} != model {want:?}"))); }
+                    if step % 16 == 15 {
+                        let bytes = c.into_inner().into_inner();
+                        c = match CompoundFile::open_strict(Cursor::new(bytes)) { Ok(c) => c, Err(e) => return Some(Err(format!("strict reopen failed: {e}"))) };
+                        for (k, v) in model.iter() {
+                            let got = read_all(&mut c, &format!("/{}", k.1)).unwrap();
+                            if &got != v { return Some(Err(format!("content of {} differs after reopen", k.1))); }
+                        }
+                    }
+                }
+            }
+            Ok("40 rounds x 200 steps agree with the model".into())
+        }
         _ => return None,
     })
 }
